@@ -1,8 +1,10 @@
 #!/bin/bash
 # Build the vp harness (links s4lib from /repo working tree, hooks on).
-set -e
-cd /verif/harness
+cd /verif/harness || exit 2
 export CARGO_NET_OFFLINE=true
 export RUSTFLAGS="--cfg s4_verif -Awarnings"
-cargo build --release --offline -p vp 2>&1 | grep -v "^warning\|^\s*$" >&2 || true
+cargo build --release --offline -p vp >/verif/harness/locks/cargo-vp.log 2>&1
+rc=$?
+grep -v "^warning\|^\s*$" /verif/harness/locks/cargo-vp.log | tail -40 >&2
+[ $rc -eq 0 ] || exit $rc
 test -x /verif/harness/target/release/vp
